@@ -360,6 +360,13 @@ pub fn gen_faults(rng: &mut Rng, stream: &Stream, n: usize, enabled: u32) -> Vec
                 let k = if ilen > 1 { rng.range(1, ilen as u64 - 1) as usize } else { 1 };
                 let inst = stream.insts.get(j);
                 let mut v = rng.word();
+                // an id used elsewhere in the stream (a collision: an id defined twice, a value typed by itself, ...)
+                if rng.chance(1, 3) {
+                    let ids: Vec<u32> = stream.insts.iter().flat_map(|i| i.rid.into_iter().chain(i.rtype)).collect();
+                    if !ids.is_empty() {
+                        v = *rng.pick(&ids);
+                    }
+                }
                 if let Some(inst) = inst {
                     // if the word is an enum/mask operand, aim near its declared values
                     let mut w = 1 + inst.rtype.is_some() as usize + inst.rid.is_some() as usize;
